@@ -455,18 +455,22 @@ func (e *Eng) strEq(a, b *StrV) T {
 	// that is only known to imply equal lengths (sound: both outcomes are explored).
 	f := e.q.DeclareFun("streq", []string{sRef, sI64, sI64, sRef, sI64, sI64}, sBool)
 	same := tAnd(tEq(a.B, b.B), tEq(a.O, b.O), tEq(a.L, b.L))
-	return tOr(same, tAnd(tEq(a.L, b.L), tOr(tEq(a.L, i64(0)), app(f, a.B, a.O, a.L, b.B, b.O, b.L))))
+	// symmetric by construction: both argument orders are required
+	both := tAnd(app(f, a.B, a.O, a.L, b.B, b.O, b.L), app(f, b.B, b.O, b.L, a.B, a.O, a.L))
+	return tOr(same, tAnd(tEq(a.L, b.L), tOr(tEq(a.L, i64(0)), both)))
 }
 
 func (e *Eng) strConcat(fr *Frame, st *State, a, b *StrV) Val {
 	if a.Lit != nil && b.Lit != nil {
 		return e.strLit(*a.Lit + *b.Lit)
 	}
-	r := e.fresh("concat", sRef)
+	// the result is a function of the operands (so that the same concatenation written in a contract
+	// and in the code denotes the same string)
+	f := e.q.DeclareFun("strcat", []string{sRef, sI64, sI64, sRef, sI64, sI64}, sRef)
+	r := app(f, a.B, a.O, a.L, b.B, b.O, b.L)
 	res := &StrV{B: r, O: i64(0), L: app("bvadd", a.L, b.L)}
 	if !fr.pure {
-		e.assume(st, tNot(tEq(r, null)))
-		// content for constant-length parts (keeps queries quantifier-free)
+		// content for constant-length prefixes (keeps queries quantifier-free)
 		if a.Lit != nil && len(*a.Lit) <= 64 {
 			for i := 0; i < len(*a.Lit); i++ {
 				e.assume(st, tEq(e.strByte(res, i64(int64(i))), bvLit(8, uint64((*a.Lit)[i]))))
@@ -513,6 +517,12 @@ func (e *Eng) unop(fr *Frame, st *State, in *ssa.UnOp) Val {
 				// type invariant of a value read by a contract clause (outside binders): a fact on the
 				// paths that perform the read
 				*fr.side = append(*fr.side, tImp(st.reach, w))
+			}
+			// every reference stored in memory denotes an allocated object (heap invariant)
+			for _, r := range refsOf(v) {
+				if r != null {
+					*fr.side = append(*fr.side, tImp(st.reach, tOr(tEq(r, null), e.allocatedIn(hs, r))))
+				}
 			}
 		}
 		return v
@@ -1035,4 +1045,28 @@ func (e *Eng) chanCount(st *State, name string, ch T, cond T) {
 	cur := app("select", h, ch)
 	st.heap[name] = app("store", h, ch, tIte(cond, app("bvadd", cur, i64(1)), cur))
 	e.modified[name] = true
+}
+
+
+// refsOf lists the object references directly contained in a value.
+func refsOf(v Val) []T {
+	switch x := v.(type) {
+	case *PtrV:
+		if x.Kind != pLocal && x.Kind != pGlobal {
+			return []T{x.Ref}
+		}
+	case *SliceV:
+		return []T{x.B}
+	case *MapV:
+		return []T{x.Ref}
+	case *IfaceV:
+		return []T{x.V}
+	case *StructV:
+		var out []T
+		for _, f := range x.Fields {
+			out = append(out, refsOf(f)...)
+		}
+		return out
+	}
+	return nil
 }
